@@ -175,10 +175,7 @@ func (g *G) Body(depth int, addressable bool) *schema.BodySchema {
 			name := g.id("b")
 			if g.coin(0.05) && len(b.Attributes) > 0 {
 				// attribute / block name clash
-				for an := range b.Attributes {
-					name = an
-					break
-				}
+				name = sortedAttrNames(b.Attributes)[0]
 			}
 			b.Blocks[name] = g.Block(depth-1, false)
 		}
